@@ -97,11 +97,13 @@ def run(ctx, spec, out):
     for wi in range(nworlds):
         nb = rng.choice([1, 2, 2, 3])
         wbs, states = [], {}
+        wflags = {}
         for i in range(nb):
             wb, flags = worldfam.small_world(rng, schema, {"nhosts": [1, 2]})
             wb["id"], wb["name"] = "b%d" % i, "Backend %d" % i
             wb["sources"] = ["self"]
             wbs.append(wb)
+            wflags[wb["id"]] = flags
         ids = [wb["id"] for wb in wbs]
         cfg = {"update_interval": rng.choice([5, 7, 10]), "stale_backend_timeout": rng.choice([10, 30]), "idle_timeout": 100000, "idle_interval": 1800,
                "max_parallel_peer_connections": 1, "backend_keepalive": False, "net_timeout": 5, "connect_timeout": 2}
@@ -110,7 +112,10 @@ def run(ctx, spec, out):
         h.both({"op": "world", "world": {"config": cfg, "backends": wbs}})
         plan = {}
         for pid in ids:
-            kind = rng.choice(["up", "up", "up", "up", "down", "rejecting", "closeearly", "failafter"])
+            kind = rng.choice(["up", "up", "up", "up", "down", "rejecting", "closeearly", "failafter", "broken"])
+            wbp = [w for w in wbs if w["id"] == pid][0]
+            if kind == "broken" and ("Icinga2" in wflags[pid] or not wbp["tables"]["hosts"]["rows"]):
+                kind = "up"
             plan[pid] = kind
             if kind == "down":
                 h.both({"op": "mode", "backend": pid, "mode": "refuse"})
@@ -121,6 +126,13 @@ def run(ctx, spec, out):
                 h.both({"op": "mode", "backend": pid, "mode": "closeearly"})
             elif kind == "failafter":
                 h.both({"op": "mode", "backend": pid, "fail_after": rng.choice([0, 1, 2, 3]), "fail_mode": "closeearly"})
+            elif kind == "broken":
+                # the backend lists one host more than lmd stored (no restart): the next full scan flags it broken
+                row = json.loads(json.dumps(wbp["tables"]["hosts"]["rows"][-1]))
+                row["name"] = "zz-more"
+                h.both({"op": "mutate", "backend": pid, "changes": [{"table": "hosts", "add": row}]})
+                h.both({"op": "advance", "seconds": 61})
+                h.both({"op": "tick", "peer": pid}, "state")
         for pid in ids:
             h.both({"op": "backend_log", "backend": pid})      # drop what the synchronisation logged
         sessions = []
@@ -210,7 +222,7 @@ def run(ctx, spec, out):
     for h, wbs, plan, sessions in worlds:
         judge_world(v, h, wbs, plan, sessions, impl, model)
     out.extra_cov["worlds"] = nworlds
-    out.extra_cov["backend_kinds"] = {k: sum(1 for _, _, p, _ in worlds for x in p.values() if x == k) for k in ("up", "down", "rejecting", "closeearly", "failafter")}
+    out.extra_cov["backend_kinds"] = {k: sum(1 for _, _, p, _ in worlds for x in p.values() if x == k) for k in ("up", "down", "rejecting", "closeearly", "failafter", "broken")}
 
 
 def expected_lines(result, last_errors):
@@ -281,7 +293,7 @@ def judge_world(v, h, wbs, plan, sessions, impl, model):
             want = (model.get(lid) or {}).get("batches") or []
             if got != want:
                 flat_got, flat_want = [c for b in got for c in b], [c for b in want for c in b]
-                kind = "property" if (flat_got != flat_want and plan.get(pid) in ("up", "down", "rejecting")) else "corr"
+                kind = "property" if (flat_got != flat_want and plan.get(pid) in ("up", "down", "rejecting", "broken")) else "corr"
                 msg = "backend %s (%s) received %s, expected %s" % (pid, plan.get(pid), json.dumps(got)[:600], json.dumps(want)[:600])
                 if kind == "property":
                     v.violations.append(("property", case, msg))
